@@ -2,6 +2,8 @@
 
 package pipeline
 
+import "github.com/buildkite/go-pipeline/ordered"
+
 // C11 - matrix permutation validation equals the matrix specification.
 
 func init() {
@@ -10,6 +12,7 @@ func init() {
 	vpRegister("c11_tuple", vpH_c11_tuple)
 	vpRegister("c11_skip", vpH_c11_skip)
 	vpRegister("c11_frame", vpH_c11_frame)
+	vpRegister("c11_parsed", vpH_c11_parsed)
 }
 
 // vpTuple is a dimension->value tuple kept as parallel lists (the oracle never
@@ -329,4 +332,86 @@ func vpH_c11_frame() {
 	}
 	err2 := m.validatePermutation(p)
 	vpAssert((err1 == nil) == (err2 == nil), "asking again gives the same verdict")
+}
+
+// The matrix as it is written: every spelling of the setup (a bare list, a
+// list under `setup`, named dimensions under `setup`, `setup: {}` / null) with
+// value lists of 0..2 values - the empty list included, where every value
+// comes from an adjustment - and an optional adjustment written as a scalar
+// or as a map. Parsed through the real unmarshaller, the matrix accepts
+// exactly what the specification sentence accepts for what was written.
+func vpH_c11_parsed() {
+	var mm vpMatrixModel
+	var tree any
+	nv := vpInt(0, 2)
+	vals := make([]string, 0, nv)
+	list := make([]any, 0, nv)
+	for i := 0; i < nv; i++ {
+		v := vpStr(1, "x-z")
+		vals = append(vals, v)
+		list = append(list, v)
+	}
+	spelling := vpInt(0, 4)
+	var setup any
+	dim := ""
+	switch spelling {
+	case 0: // matrix: [..]
+		tree = list
+		mm.dims, mm.vals = []string{""}, [][]string{vals}
+	case 1: // setup: [..]
+		setup = list
+		mm.dims, mm.vals = []string{""}, [][]string{vals}
+	case 2: // setup: {d: [..]}
+		dim = vpStr(1, "a-b")
+		setup = ordered.MapFromItems(ordered.TupleSA{Key: dim, Value: list})
+		mm.dims, mm.vals = []string{dim}, [][]string{vals}
+	case 3: // setup: {}
+		vpAssume(nv == 0)
+		setup = ordered.NewMap[string, any](0)
+	case 4: // setup: null
+		vpAssume(nv == 0)
+		setup = nil
+	}
+	if spelling != 0 {
+		m := ordered.MapFromItems(ordered.TupleSA{Key: "setup", Value: setup})
+		if vpBool() {
+			av := vpStr(1, "x-z")
+			var with any
+			w := vpTuple{}
+			switch vpInt(0, 2) {
+			case 0: // with: v - the anonymous dimension
+				with = av
+				w = vpTuple{names: []string{""}, vals: []string{av}}
+			case 1: // with: {d: v}
+				wd := vpStrUpTo(1, "a-b")
+				with = ordered.MapFromItems(ordered.TupleSA{Key: wd, Value: av})
+				w = vpTuple{names: []string{wd}, vals: []string{av}}
+			case 2: // with: {}
+				with = ordered.NewMap[string, any](0)
+			}
+			adj := ordered.MapFromItems(ordered.TupleSA{Key: "with", Value: with})
+			sk := vpInt(0, 2)
+			switch sk {
+			case 1:
+				adj.Set("skip", false)
+			case 2:
+				adj.Set("skip", true)
+			}
+			m.Set("adjustments", []any{adj})
+			mm.adjs = append(mm.adjs, vpAdjSpec{with: w, skip: sk})
+		}
+		tree = m
+	}
+	var mx Matrix
+	err := ordered.Unmarshal(tree, &mx)
+	vpAssert(err == nil, "every spelling of a matrix parses")
+	var p vpTuple
+	if vpBool() {
+		p = vpTuple{names: []string{vpStrUpTo(1, "a-b")}, vals: []string{vpStr(1, "x-z")}}
+	}
+	verr := mx.validatePermutation(MatrixPermutation(p.asMap()))
+	vpAssert((verr == nil) == vpMatrixSpec(mm, p), "a parsed matrix accepts exactly the permutations the specification allows for what was written (empty value lists and the anonymous dimension included)")
+	if spelling == 1 && nv == 0 && verr == nil && len(p.names) == 1 {
+		vpCover("setup: [] with an accepted adjustment tuple")
+	}
 }
